@@ -5,7 +5,7 @@
 # the loaded dataset equals the message encoded before dumping.
 import collections, glob, os, random, struct
 from fractions import Fraction
-import vlib, tables, gen, codecrun
+import vlib, tables, gen, codecrun, bufrmsg
 
 SKIPPED, EXPANDED, IGNORED, CLASS31 = 4, 2, 0x10, 1
 T_NUMERIC, T_CCITT, T_CODE, T_FLAG, T_CHNGREF, T_IEEE = 4, 5, 6, 7, 8, 9
@@ -434,7 +434,27 @@ def classify_failure(kase, msg, idx):
 
 
 # ------------------------------------------------------------------ the oracle (library alone)
-def oracle_dataset(m, idx):
+def equal_but_section1_local_octets(a, b):
+    """Decoded messages may carry octets 'reserved for local use by ADP centres' at the end of Section 1 (the decoder keeps
+    only their number); the text form has no key for them, a dataset created from the template has none.  True when the two
+    messages are equal in everything else: heading, Section 1 standard fields, Sections 2-5."""
+    try:
+        pa, pb = bufrmsg.parse(a), bufrmsg.parse(b)
+    except Exception:
+        return False
+    if pa["ed"] != pb["ed"] or a[:pa["start"]] != b[:pb["start"]]:
+        return False
+    std = 22 if pa["ed"] >= 4 else 17
+    s1a, s1b = pa["s1"], pb["s1"]
+    n = min(len(s1a), len(s1b))
+    if n < std or s1a[3:std] != s1b[3:std]:
+        return False
+    ra = a[pa["start"] + 8 + len(s1a):pa["start"] + pa["total"]]
+    rb = b[pb["start"] + 8 + len(s1b):pb["start"] + pb["total"]]
+    return ra == rb and a[pa["start"] + pa["total"]:] == b[pb["start"] + pb["total"]:]
+
+
+def oracle_dataset(m, idx, decoded=False):
     """-> None or reason: the idx-th dataset read back from the text must encode to the message it encoded to before"""
     if m.get("a", "-") == "-":
         return None if m.get("b", "-") == "-" and False else "the original dataset could not be encoded (not a C13 matter)"
@@ -445,6 +465,8 @@ def oracle_dataset(m, idx):
         return "dataset %d loaded from the text could not be encoded" % (idx + 1)
     if m["b"] != m["a"]:
         a, b = bytes.fromhex(m["a"]), bytes.fromhex(m["b"])
+        if decoded and equal_but_section1_local_octets(a, b):
+            return "S1LOCAL"
         k = next((i for i in range(min(len(a), len(b))) if a[i] != b[i]), min(len(a), len(b)))
         why = ""
         if len(m["O"]) == len(m["L"]):
@@ -461,6 +483,10 @@ def oracle_dataset(m, idx):
 
 
 # ------------------------------------------------------------------ running
+def complete_record(o):
+    return (" ; END more=" in o) or o.startswith(("P ", "B ", "TABLES", "?")) or (o[:2] in ("E ", "D ") and not o.startswith(("E rc=0", "D rc=0")))
+
+
 def run_harness(exe, lines, tmpdir):
     """runs the harness; restarts it after a crash.  -> list of (output line | None, stderr excerpt)"""
     outs = [None] * len(lines)
@@ -474,6 +500,8 @@ def run_harness(exe, lines, tmpdir):
         skip = len(feed) - len(chunk)
         rc, out, err = vlib.run_cases(exe, "\n".join(feed) + "\n", timeout=3000, env={"VERIF_C13_TMP": tmpdir})
         out = out[:-1] if out and out[-1] == "" else out
+        if out and rc != 0 and not complete_record(out[-1]):
+            out = out[:-1]          # the harness died in the middle of a record
         out = out[skip:]
         for i, o in enumerate(out[:len(chunk)]):
             outs[start + i] = o
@@ -602,15 +630,24 @@ def run(rep, tier, seed, replay=None):
             else:
                 rep.violation(what, dict(robj, stderr=case_errs[ci])); nviol += 1
             continue
-        if r["head"].get("rc") != "0":
+        if r["head"].get("rc") != "0" or not r["msgs"]:
             feat["not_built_rc" + r["head"].get("rc", "?")] += 1
+            if r["head"].get("rc") == "0":
+                rep.violation("C13: the harness produced no dataset record: %s  [case: %s]" % (case_outs[ci][:200], key[:300]), robj, no_input=True); nviol += 1
             continue
         if ci % 131 == 0:
             rep.sample({"case": key[:300], "text": bytes.fromhex(r["head"].get("text", ""))[-160:].decode("latin-1"), "a==b": [m.get("a") == m.get("b") for m in r["msgs"]]})
+        # -- datasets the library itself flags as invalid coding (BUFR_FLAG_INVALID, e.g. 2 07 YYY in an edition 3 message) are outside the property
+        if any((int(m["ohdr"].split(",")[16]) & 256) or (int(m.get("lrc", "0")) > 0 and int(m["hdr"].split(",")[16]) & 256) for m in r["msgs"]):
+            feat["flagged_invalid_by_library"] += 1
+            continue
         # -- oracle
         fails = []
         for i, m in enumerate(r["msgs"]):
-            f = oracle_dataset(m, i)
+            f = oracle_dataset(m, i, decoded=(r["head"]["cmd"] == "D"))
+            if f == "S1LOCAL":
+                feat["decoded_section1_local_octets_not_in_text"] += 1
+                continue
             if f and "not a C13 matter" in f:
                 feat["original_not_encodable"] += 1
                 continue
